@@ -612,24 +612,39 @@ theorem vf_sweep_cur (n : Nat) : ∀ (fuel x : Nat) (prob : List Rat) (als : Lis
       exact vf_sweep_cur n fuel _ _ _ (vf_shape_set n _ _ h _ _ _ _ hx)
     · rw [if_neg hx]; exact h
 
+/-- the state after the main loop of the constructor as it is -/
+def vf_exit_cur (p : List Rat) (avg : Rat) : Vose :=
+  voseLoop p.length avg (2 * p.length + 1)
+    ⟨p, List.replicate p.length 0,
+      scanFrom (fun i => p.getD i 0 ≥ avg) p.length p.length 0,
+      scanFrom (fun i => p.getD i 0 < avg) p.length p.length 0,
+      scanFrom (fun i => p.getD i 0 ≥ avg) p.length p.length 0⟩
+
+theorem vf_build_cur_eq (p : List Rat) (avg : Rat) :
+    voseBuild p avg =
+      ((voseSweep p.length (p.length + 1)
+          (min (vf_exit_cur p avg).large (vf_exit_cur p avg).small)
+          (vf_exit_cur p avg).prob (vf_exit_cur p avg).alias).1.map (· * (p.length : Rat)),
+       (voseSweep p.length (p.length + 1)
+          (min (vf_exit_cur p avg).large (vf_exit_cur p avg).small)
+          (vf_exit_cur p avg).prob (vf_exit_cur p avg).alias).2) := rfl
+
 theorem vf_build_cur (p : List Rat) (avg : Rat) (hne : p ≠ []) :
     vf_Shape p.length (voseBuild p avg).1 (voseBuild p avg).2 := by
   have hlen : 0 < p.length := List.length_pos_of_ne_nil hne
   have h0 : vf_Shape p.length p (List.replicate p.length 0) :=
     ⟨rfl, List.length_replicate, fun a ha => by rw [List.eq_of_mem_replicate ha]; exact hlen⟩
-  have h1 := vf_loop_cur p.length avg (2 * p.length + 1)
-    ⟨p, List.replicate p.length 0,
-      scanFrom (fun i => p.getD i 0 ≥ avg) p.length p.length 0,
-      scanFrom (fun i => p.getD i 0 < avg) p.length p.length 0,
-      scanFrom (fun i => p.getD i 0 ≥ avg) p.length p.length 0⟩ h0
-  have h2 := vf_sweep_cur p.length (p.length + 1) (min _ _) _ _ h1
-  obtain ⟨a, b, c⟩ := h2
-  exact ⟨by simpa [voseBuild] using a, b, c⟩
+  have h1 : vf_Shape p.length (vf_exit_cur p avg).prob (vf_exit_cur p avg).alias :=
+    vf_loop_cur p.length avg (2 * p.length + 1) _ h0
+  obtain ⟨a, b, c⟩ := vf_sweep_cur p.length (p.length + 1)
+    (min (vf_exit_cur p avg).large (vf_exit_cur p avg).small) _ _ h1
+  rw [vf_build_cur_eq]
+  exact ⟨by rw [List.length_map]; exact a, b, c⟩
 
 theorem vose_current_lengths (p : List Rat) (avg : Rat) :
     (voseBuild p avg).1.length = p.length ∧ (voseBuild p avg).2.length = p.length := by
   by_cases hne : p = []
-  · subst hne; decide
+  · subst hne; exact ⟨rfl, rfl⟩
   · exact ⟨(vf_build_cur p avg hne).1, (vf_build_cur p avg hne).2.1⟩
 
 theorem vose_current_alias_in_range (p : List Rat) (avg : Rat) (hne : p ≠ []) :
@@ -650,7 +665,8 @@ theorem aliasMass_total (prob : List Rat) (als : List Nat) (hlen : als.length = 
   rw [vf_sum_range_map]
   unfold aliasMass
   simp only [vf_sum_range_map]
-  rw [← Finset.sum_div, Finset.sum_comm]
+  simp only [div_eq_mul_inv]
+  rw [← Finset.sum_mul, Finset.sum_comm]
   have hin : ∀ i ∈ Finset.range prob.length,
       ∑ j ∈ Finset.range prob.length,
         ((if i = j then clamp01 (prob.getD i 0) else 0) +
@@ -662,7 +678,7 @@ theorem aliasMass_total (prob : List Rat) (als : List Nat) (hlen : als.length = 
     rw [Finset.sum_add_distrib, Finset.sum_ite_eq, Finset.sum_ite_eq, if_pos hi, if_pos ha]
     ring
   rw [Finset.sum_congr rfl hin, Finset.sum_const, Finset.card_range, nsmul_eq_mul, mul_one,
-    div_self hn0]
+    mul_inv_cancel₀ hn0]
 
 /-! ## (E) corollaries for the repaired constructor -/
 
